@@ -95,6 +95,16 @@ func (m *MatchHTTP) Match(cx *layer4.Connection) (bool, error) {
 			return false, nil
 		}
 
+		// http.ReadRequest needs the whole header block: given a request whose
+		// headers are still arriving it reports a malformed header line (the
+		// connection would be dropped) instead of asking for more data
+		if !headersComplete(data) {
+			if len(data) >= layer4.MaxMatchingBytes {
+				return false, layer4.ErrMatchingBufferFull
+			}
+			return false, layer4.ErrConsumedAllPrefetchedBytes
+		}
+
 		// use bufio reader which exactly matches the size of prefetched data,
 		// to not trigger all bytes consumed error
 		bufReader := bufio.NewReaderSize(cx, len(data))
@@ -148,6 +158,24 @@ func (m MatchHTTP) isHttp(data []byte) (bool, bool) {
 		end -= 1
 	}
 	return false, bytes.Compare(data[start:end], []byte(" HTTP/")) == 0
+}
+
+// headersComplete reports whether data contains the empty line that ends an
+// HTTP/1.x header block (lines may end with \r\n or \n).
+func headersComplete(data []byte) bool {
+	for i := 0; i < len(data); i++ {
+		if data[i] != 0x0a {
+			continue
+		}
+		j := i + 1
+		if j < len(data) && data[j] == 0x0d {
+			j++
+		}
+		if j < len(data) && data[j] == 0x0a {
+			return true
+		}
+	}
+	return false
 }
 
 // Parses information from a http2 request with prior knowledge (RFC 7540 Section 3.4)
